@@ -37,7 +37,7 @@ SCOPE = {
               'float64/float32/int64/int8, args passed as tuple/list (None or empty for 0 args); dropout / batch-norm / both models handed over in train mode: every n in 1..40 x every b in 1..n+3 '
               'x {0,1} extra arguments (one model kind per combination, rotating); rejection: every n in 1..40 x 1-3 args x every position of the bad entry x leading '
               'dimensions {n-1, n+1, 1, 2n, 0, n+b} x 2 batch sizes; batch_size omitted (default 32) for every n'),
-    'thorough': ('recording models: every n in 1..40 x every b in 1..n+3 x 0-3 extra arguments x all 7 output kinds x 2 data seeds, X dtype rotating; '
+    'thorough': ('recording models: every n in 1..40 x every b in 1..n+3 x 0-3 extra arguments x all 7 output kinds x 3 data seeds, X dtype rotating; '
                  'dropout / batch-norm / both models: every n x every b x {0,1} extra arguments x all 3 model kinds; rejection as in quick with every batch size in {1, n, n+3}; '
                  'additionally n in {41..43, 64, 97} with b in 1..n+3 for tensor / tuple3 outputs'),
 }
@@ -332,7 +332,7 @@ def run(rep):
                 r = n + bb + nargs
                 outs = OUT_KINDS if thorough else (OUT_KINDS[r % 7], OUT_KINDS[(r + 3) % 7], OUT_KINDS[(r + 5) % 7])
                 for oi, out in enumerate(outs):
-                    for t in range(2 if thorough else 1):
+                    for t in range(3 if thorough else 1):
                         case = {'kind': 'rec', 'n': n, 'b': b, 'nargs': nargs, 'out': out, 'seed': seed0 + t,
                                 'xdtype': xd[(r + oi + t) % 4],
                                 'args_as': ('none' if (r + oi) % 2 else 'list') if nargs == 0 else ('tuple' if (r + oi) % 2 else 'list')}
